@@ -172,6 +172,26 @@ def directed(default_params):
                       {"op": "rename.gen", "slot": 0, "route": route},
                       {"op": "rename.gen", "slot": 0, "route": route}]
     out.append(("einstein-powers", P, steps))
+    # unexpanded input: a sum multiplied by common factors, Einstein convention and provided
+    # targets, Expr-level renamings (which have to expand first)
+    steps = []
+    sums = [
+        ([{"pref": [1, 1], "atoms": [["nst", "w", ["k"]]]}, {"pref": [1, 1], "atoms": [["nst", "u", ["k"]]]}],
+         [["nst", "w", ["i", "i"]]], ["k"]),
+        ([{"pref": [1, 1], "atoms": [["nst", "w", ["i", "a"]]]},
+          {"pref": [-1, 2], "atoms": [["nst", "u", ["i", "a"]]]}],
+         [["ast", "V", ["j", "k"], ["b", "c"], 0], ["amp", "t1", ["b", "c"], ["j", "k"], 0]], ["i", "a"]),
+        ([{"pref": [1, 1], "atoms": [["amp", "X", ["a"], ["j"], 0], ["ast", "f", ["j"], ["i"], 0]]},
+          {"pref": [2, 1], "atoms": [["amp", "Y", ["a"], ["i"], 0]]}],
+         [["nst", "w", ["k", "k"]], ["nst", "u", ["l", "l"]]], ["i", "a"]),
+    ]
+    for terms, fac, tg in sums:
+        steps.append({"op": "build", "slot": 0, "targets": tg, "terms": terms, "factor": fac})
+        for route in (6, 0, 2, 4):
+            steps += [{"op": "rename.gen", "slot": 0, "route": route, "keep": True},
+                      {"op": "rename.sc", "slot": 0, "route": route, "keep": True},
+                      {"op": "rename.copy", "slot": 0, "route": route, "how": "gen"}]
+    out.append(("unexpanded-input", P, steps))
     # one request mixing indices with and without spin, the spin at every position
     steps = []
     for names in (["i", "j"], ["a", "b", "c"], ["k3", "l3"], ["p", "i", "a"]):
